@@ -470,6 +470,25 @@ def check_ndarray(ctx, r, lines, expect, meta):
             expect.append('ok ' + (','.join(str(b) for b in doc['data']) or '-')); meta.append(('serialize_ndarray bytes', src))
             lines.append(f"frombytes {sz} {sg} {len(flat)} " + (','.join(str(b) for b in doc['data']) or '-'))
             expect.append('ok ' + (','.join(str(int(x)) for x in b.ravel().tolist()) or '-')); meta.append(('deserialize_ndarray bytes', src))
+        if not dt.startswith('float') and dt != 'bool':
+            # the whole document (keys, branch selection of deserialize_ndarray) against `DimodModel/BytesDoc.lean`; also with a
+            # truncated buffer, which `np.frombuffer` / `reshape` must refuse
+            sz = a.dtype.itemsize; sg = int(dt.startswith('int'))
+            flat = [int(x) for x in a.ravel().tolist()]
+            for drop in ((0, sz) if ub and cnt else (0,)):
+                doc3 = dict(doc)
+                if drop:
+                    doc3['data'] = doc['data'][:len(doc['data']) - drop]
+                try:
+                    b3 = deserialize_ndarray(doc3 if ub else json.loads(json.dumps(doc3)))
+                    back = 'some ' + (','.join(map(str, b3.shape)) or '-') + ' ' + (','.join(str(int(x)) for x in b3.ravel().tolist()) or '-')
+                except Exception:  # noqa
+                    back = 'none'
+                payload = ('B' + (','.join(str(x) for x in doc['data']) or '-')) if ub else ('L' + pv(doc['data']))
+                lines.append(f"bytesdoc {sz} {sg} " + (','.join(map(str, a.shape)) or '-') + ' ' + (','.join(map(str, flat)) or '-') + f' {int(ub)} {drop}')
+                expect.append(f"ok type={doc['type']} size={np.dtype(doc['data_type']).itemsize} signed={int(np.dtype(doc['data_type']).kind == 'i')} "
+                              f"shape={(','.join(map(str, doc['shape'])) or '-')} use_bytes={int(doc['use_bytes'])} data={payload} back={back}")
+                meta.append(('serialize_ndarray document', src)); ctx.tick('ndarray document ' + ('bytes' if ub else 'json') + (' truncated' if drop else ''))
         if not ub:
             cls = 'b' if dt == 'bool' else 'f' if dt.startswith('float') else 'i'
             lines.append(f'serarr {cls} ' + (','.join(map(str, a.shape)) or '-') + ' ' + ratl(a.ravel().tolist()))
